@@ -167,6 +167,14 @@ def install2(R):
                                           "self._last_df == call_result('Runner.run_cases') and result == call_result('Runner.run_cases')")],
           raises={"AnyError": dict()})
 
+    R.prop_meta["C06"] = dict(
+        bounded_in_quick="crop route against the direct route on the real code: replay/C06.py (Runner: grids, shuffle, sow-time constants, internal dimensions, resources, "
+                         "attributes, last_ds; Harvester: three overwrite policies, engines joblib and h5netcdf, accumulated dataset in memory and on disk against a direct "
+                         "harvest; Sampler: rows appended, last_df; each also with the crop and its farmer reloaded by name between sow, grow and reap)",
+        not_decided=["reload of crop and farmer by name (pickled farmer without its function, function re-attached): bounded replay only",
+                     "equality of the final datasets is by congruence from equal builder inputs (C03 proves the builder's output is determined by them)"],
+        assumptions=["pickle / cloudpickle round trip; xarray / pandas builders"],
+    )
     R.prop_meta["C15"] = dict(
         bounded_in_quick="sampling histories on the real code: replay/C15.py (sequences of sample_combos and sow_samples/grow/reap with varying n, combos overrides, "
                          "constants, engines pickle and csv, fresh Sampler objects between runs): exactly n rows appended, earlier rows unchanged, argument values "
